@@ -144,6 +144,20 @@ theorem intLE8_valid (i : Int) : (intLE 8).valid i ↔ -(2 ^ 63 : Int) ≤ i ∧
     refine ⟨by omega, ?_⟩
     split <;> omega
 
+/-- the 4-byte signed field (header / protocol version) holds exactly the two's complement range -/
+theorem intLE4_valid (i : Int) : (intLE 4).valid i ↔ -(2 ^ 31 : Int) ≤ i ∧ i < 2 ^ 31 := by
+  simp only [intLE, Codec.map]
+  rw [uintLE_valid]
+  unfold toSigned ofSigned
+  have e : (256 ^ 4 : Nat) = 4294967296 := by decide
+  rw [e]
+  constructor
+  · rintro ⟨_, h⟩
+    split at h <;> omega
+  · intro h
+    refine ⟨by omega, ?_⟩
+    split <;> omega
+
 theorem lawful_revBytesN (n : Nat) : Lawful (revBytesN n) :=
   lawful_map (lawful_bytesN n .short) _ _ (fun a _ => List.reverse_reverse a)
 
